@@ -16,6 +16,8 @@ CLAIMS = {
          "Partial by nature: files on disk and Python's re are external. The DOT reader understands exactly the shapes tealer emits.", "8/C18"),
  'C20': ("Lean model of _is_match / _find_instructions (Regex.lean) with the theorem that every reported match starts at an instruction reachable from the label at which the pattern occurs consecutively in straight-line code, lists those instructions in order, and every covered instruction is reachable (C20_sound, by induction on the search with an invariant over visited / matches / covered); + correspondence of matches and covered with the real match_regex; + independent reachability-closure oracle for completeness of the match set and soundness of covered",
          "Completeness of `covered` is false on the unchanged tree (known finding F23); completeness of the match set is decided by the oracle, not yet a theorem.", "8/C20"),
+ 'C13': ("Lean theorems: the offset table built by fill_group_relative_indexes is exactly the inverse of the configured offsets; the verdict logic stated outright (a transaction is cleared iff its own logic-sig / application, or another member through the configured absolute index or offset, excludes the value at every accepting exit); leaf criterion; + on every run, through the YAML reader and init_tealer_from_config: one-transaction configurations (group verdict = single-contract verdict per applicable detector) and two-transaction configurations x who checks the field x absolute / relative configuration, with the concrete group executed by the Lean AVM semantics (both contracts must approve)",
+         "The group verdict is not yet run through the Lean model (contexts of several functions); the decision-logic theorems are about a model of the loop, tied by the oracle comparisons only. Known finding F24.", "8/C13"),
  'C14': ("Lean theorems: the model is a pure function of the program; whatever the initial order of the worklist (any order a set iteration may give) the result solves the equations when the loop stops (worklist theorem), permuting the initial worklist keeps the precondition, detectors read the contexts as an immutable argument; + on every run: the same contract analysed fresh, after random histories in the same process, with detectors registered in shuffled orders and re-run on one Tealer object, and in fresh processes under several PYTHONHASHSEED values with byte-identical JSON",
          "Partial by nature: hash seeds, id()-ordered sets, lru_caches and module-level lists are Python runtime behaviour that the pure model cannot exhibit; uniqueness of the fixpoint (confluence) is not yet a theorem.", "8/C14"),
  'C15': ("Lean theorems on the model: int / pushint / intcblock+intc spellings push the same known value, named type and completion constants denote their numbers, stack-neutral padding leaves the symbolic stack unchanged, consistent label renaming resolves every jump to the same position; + metamorphic check on the real tool: random compositions of label renaming, integer spellings (decimal/hex/octal, names), int->pushint, comments / blank lines / indentation, padding, moving subroutine bodies leave per-block contexts (matched through instruction ids) and detector verdicts unchanged",
